@@ -152,7 +152,10 @@ SHAPES = {
     "iface_async_throws": ("err = error { a; }\ni = interface +cpp { async m() throws err -> string; }", None),
     "iface_async_rec": ("r = record {a: i32;}\ni = interface +cpp { async m() -> r; async l() -> list<r>; }", None),
     "iface_async_java": ("i = interface +java { async m(a: i32) -> i32; }", "compile:async-on-non-cpp-interface"),
-    "iface_async_void": ("i = interface +cpp { async n(); }", "undefined:async-without-return"),
+    "iface_async_void": ("i = interface +cpp { async n(); }", None),
+    "iface_async_void_all": ("s = record { a: i32; }\ni = interface +cpp { async a(); static async b(); static async c(v: s); async d(v: s) throws; static async e() -> i32; const f(); }", None),
+    "iface_async_void_java": ("i = interface +java { async a(); async b(v: i32); }", "compile:async-on-non-cpp-interface"),
+    "deprecated_special": ('# @deprecated use "other" instead (see C:\\docs\\x)\ne = enum {\n # @deprecated it\'s "old"; 100% \\n\n a; b; }\n# @deprecated "q"\nr = record {\n # @deprecated \\\n a: i32; }\n# @deprecated tab\there\ni = interface +cpp {\n # @deprecated "x" and \\"y\\"\n m(); }', None),
     "fn_opt_ret": ("f = function (a: i32?) -> bool?;", None),
     "kw_enum_null": ("e = enum { null; }", None),
     "map_key_rec": ("r = record { a: i32; } deriving(eq)\ns = record { m: map<r, i32>; }", "compile:record-as-hash-key"),
@@ -228,8 +231,6 @@ def classify(ast) -> list[str]:
                 if m["async"]:
                     if "cpp" not in d["targets"]:
                         keys.add("compile:async-on-non-cpp-interface")
-                    if m["ret"] is None:
-                        keys.add("undefined:async-without-return")
                 if set(d["targets"]) - {"cpp"}:
                     r = m["ret"]
                     if r is not None and "fn" not in r and r["n"] in ("string", "binary", "date"):
@@ -548,6 +549,10 @@ service = main interface +cpp {
     flags_and_enums(k: kind, p: perm) -> perm;
     async later(a: i32) -> i32;
     async later_rec() throws oops -> deep.er.inner;
+    async fire_and_forget(a: i32);
+    static async warm_up(cfg: opts);
+    # @deprecated use "later" instead (C:\\old\\api)
+    old_one();
 }
 both = interface { async ping(a: i32) -> i32; poke(v: i32?) -> i32?; }
 callback = function (a: list<prims>) -> opts;
@@ -832,7 +837,7 @@ def run(ctx):
             failures.append(("marker", "generated output contains an unrendered template marker", {"markers": r["markers"]}))
         und = [u for u in r["undefined"]]
         if und:
-            k = "undefined:" + ("async-without-return" if "undefined:async-without-return" in shape else und[0][2])
+            k = "undefined:" + und[0][2]
             failures.append((k, "an undefined template value was printed or iterated (silently empty output)", {"undefined": und[:4]}))
         # (b) structural coverage with the implementation's own dependency lists + correspondence
         if r["kind"] == "ok" and m.get("syntax"):
